@@ -592,5 +592,29 @@ func (g *Exec) Program(max int) *ir.Node {
 	if len(args) > 0 {
 		p.Kids = append(p.Kids, printOf(args...))
 	}
+	if g.R.Intn(40, "fakedirective") == 0 {
+		// a first statement that looks like a directive but is none, because one of
+		// its characters is written as an escape ("use\x20strict" is an ordinary
+		// string statement), and sloppy-only behaviour at the end: an assignment
+		// to an undeclared name
+		text := "use strict"
+		k := g.R.Intn(len(text), "fdpos")
+		str := &ir.Node{K: ir.Str, Quote: []string{"\"", "'"}[g.R.Intn(2, "fdq")], Pieces: []ir.Piece{}}
+		for i := 0; i < len(text); i++ {
+			if i == k {
+				if g.R.Bool("fdhex") {
+					str.Pieces = append(str.Pieces, HexPiece(int(text[i]), g.R.Bool("fdup")))
+				} else {
+					str.Pieces = append(str.Pieces, UniPiece(int(text[i]), g.R.Bool("fdup")))
+				}
+			} else {
+				str.Pieces = append(str.Pieces, ir.Piece{Src: string(text[i]), Units: []uint16{uint16(text[i])}})
+			}
+		}
+		name := g.fresh("undeclared")
+		p.Kids = append([]*ir.Node{estmt(str)}, p.Kids...)
+		p.Kids = append(p.Kids, estmt(ir.N(ir.Assign, "=", idn(name), num("1"))), printOf(idn(name)))
+		g.feat("escaped-directive-lookalike")
+	}
 	return p
 }
